@@ -188,6 +188,7 @@ func (w *world) lockLeak(format string, args ...any) {
 func (w *world) label(l string) { w.labels[l]++ }
 
 func (w *world) record(op, arg string) *step {
+	caseProgress.Add(1)
 	w.script = append(w.script, step{N: w.stepNo, Op: op, Arg: arg})
 	return &w.script[len(w.script)-1]
 }
